@@ -369,12 +369,13 @@ struct LifeHttpHandler : public Http::Handler {
             return;
         }
         if (req.resource() == "/big") { response.send(Http::Code::Ok, std::string(4 << 20, 'z')); return; }
+        if (req.resource() == "/file0") { static std::string empty = [] { std::string p = "c08-empty-" + std::to_string(getpid()) + ".bin"; FILE* f = fopen(p.c_str(), "wb"); if (f) fclose(f); return p; }(); Http::serveFile(response, empty); return; }   // a file of zero bytes: nothing to send, the descriptor has to go all the same
         if (req.resource() == "/file") { Http::serveFile(response, census_file()); return; }   // a response that holds a descriptor of its own until it has been sent
         response.send(Http::Code::Ok, "ok");
     }
     void onDisconnection(const std::shared_ptr<Tcp::Peer>& peer) override { std::lock_guard<std::mutex> g(g_m); PeerLife& l = g_life[peer->getID()]; l.disc++; l.events += 'D'; l.obj = peer; }
 };
-static const char* BEHAVIOUR[] = {"connect-close", "partial-then-close", "exchange-then-close", "half-close-then-read", "reset", "reset-with-pending-response", "silence-until-idle-timeout", "armed-timeout-answered-before", "keepalive-3-requests-then-close", "exchange-then-silence-until-idle-timeout", "slow-request-keeps-worker-busy", "partial-then-immediate-close-while-worker-busy", "send-and-half-close-at-once-while-worker-busy", "request-a-streamed-response-then-reset", "long-poll-then-leave-before-the-response-time-out", "unread-response-then-silence-past-the-idle-time-out-then-close", "silence-past-the-idle-time-out-then-orderly-close", "slow-request-keeps-worker-busy-past-the-idle-time-out", "reset-with-pending-file-response", "file-response-read-to-the-end", "head-completed-past-the-time-out-asks-for-a-streamed-response", "long-poll-until-the-response-time-out-fires", "slow-request-holds-the-worker-for-600-ms", "joins-a-burst-while-the-worker-is-held", "unread-response-then-silence-past-the-idle-time-out-then-reads-everything"};
+static const char* BEHAVIOUR[] = {"connect-close", "partial-then-close", "exchange-then-close", "half-close-then-read", "reset", "reset-with-pending-response", "silence-until-idle-timeout", "armed-timeout-answered-before", "keepalive-3-requests-then-close", "exchange-then-silence-until-idle-timeout", "slow-request-keeps-worker-busy", "partial-then-immediate-close-while-worker-busy", "send-and-half-close-at-once-while-worker-busy", "request-a-streamed-response-then-reset", "long-poll-then-leave-before-the-response-time-out", "unread-response-then-silence-past-the-idle-time-out-then-close", "silence-past-the-idle-time-out-then-orderly-close", "slow-request-keeps-worker-busy-past-the-idle-time-out", "reset-with-pending-file-response", "file-response-read-to-the-end", "head-completed-past-the-time-out-asks-for-a-streamed-response", "long-poll-until-the-response-time-out-fires", "slow-request-holds-the-worker-for-600-ms", "joins-a-burst-while-the-worker-is-held", "unread-response-then-silence-past-the-idle-time-out-then-reads-everything", "asks-for-an-empty-file"};
 static std::atomic<int> g_foreign_bytes{0};
 static std::atomic<int> g_own_408{0};
 static std::string g_foreign_detail;
@@ -429,6 +430,7 @@ static void client_behaviour(int port, int b, bool http, Rng& r) {
         if (!m.complete || m.status != 408) { if (g_foreign_bytes++ == 0) { std::lock_guard<std::mutex> g(g_m); g_foreign_detail = "long poll past its response time-out: " + (m.complete ? "status " + std::to_string(m.status) : "no answer (" + m.error + ")"); } }
         else g_own_408++;
         lv::msleep(r.range(0, 60)); break; }
+    case 25: c.send_all(req("/file0")); { lv::HttpMsg m = lv::read_response(c, buf, 0, (int)(3000 * lv::load_factor())); if (!timedOutByServer && (!m.complete || m.status != 200 || !m.body.empty())) { if (g_foreign_bytes++ == 0) { std::lock_guard<std::mutex> g(g_m); g_foreign_detail = "empty file response: " + (m.complete ? "status " + std::to_string(m.status) + ", " + std::to_string(m.body.size()) + " body bytes" : "incomplete (" + m.error + ")"); } } } break;
     case 22: c.send_all(req("/slow?ms=600")); readReply(); break;
     case 23: { int w = r.range(0, 3); if (w == 0) { lv::msleep(400); break; } if (w == 1) { c.send_all(req("/x")); lv::msleep(r.range(0, 300)); c.rst_close(); return; } c.send_all(req("/x")); readReply(); } break;   // connects while the only worker is inside a handler: connect-and-leave / reset / exchange
     case 9: c.send_all(req("/x")); readReply(); { bool eof = false; double end = lv::now() + 4.0; std::string t; while (!eof && lv::now() < end) c.read_some(t, 100, 1 << 20, &eof); } break;
@@ -484,7 +486,7 @@ static void run_c08(long cases) {
         if (stallRound) nclients = std::max(nclients, 3);
         for (int k = 0; k < nclients; k++) {
             int b = r.range(0, 16);
-            if (http && r.chance(1, 8)) b = r.chance(2, 3) ? 18 : 19;
+            if (http && r.chance(1, 8)) b = r.chance(1, 2) ? 18 : r.chance(1, 2) ? 19 : 25;
             if (http && r.chance(1, 10)) b = 21;
             if (stallRound) { static const int QUIET[] = {0, 1, 4, 16, 16, 20, 12, 11, 20}; b = k == 0 ? 17 : k <= 2 ? 16 : r.pick(QUIET); }
             if (!stallRound && k == 0 && r.chance(1, 2)) b = 10;
